@@ -81,16 +81,18 @@ def short(x, n=300):
 # ------------------------------------------------------------------------------------------------ worlds
 from gen import pddl as G
 
-CLEAN_FEAT = dict(or_pre=False, forall_pre=False)
-
 
 def draw_features(ctx, base=None, allow=("subtypes", "constants", "neg", "equality", "numeric", "when", "forall_eff")):
     """swarm configuration of the generated PDDL: each optional construct is switched on/off per run"""
     c = ctx.s("cfg")
     feat = dict(G.DEFAULT_FEAT)
-    feat.update(CLEAN_FEAT)
     for k in allow:
         feat[k] = c.chance(3, 4)
+    # nested (or / and-in-or), universally quantified and unwrapped (no 'and') preconditions: part of every workload
+    # since the repairs 22ef5c6 / 8b38173 (before, they were finding profiles of C04)
+    feat["or_pre"] = c.draw(4) == 0
+    feat["forall_pre"] = c.draw(4) == 0
+    feat["bare_pre"] = c.draw(3) == 0
     feat["max_objects"] = 3 + c.draw(3) if c.draw(8) else 6 + c.draw(3)
     feat["max_actions"] = 1 + c.draw(3) if c.draw(8) else 4 + c.draw(2)
     feat["long_names"] = c.draw(12) == 0
